@@ -102,6 +102,55 @@ def grangerAt (H cov : M2 K) : GC K :=
 def M2.swap (m : M2 K) : M2 K := ⟨m.m11, m.m10, m.m01, m.m00⟩
 def Coefs.swap (c : Coefs K) : Coefs K := ⟨c.c11, c.c10, c.c01, c.c00⟩
 
+/-! ### the four responses as OBJECTS (two of the four names may be bound to one array)
+
+`transfer_function_xy` calls `freq_response` four times and binds the results to `aw, bw, cw, dw`.  Nothing in its
+contract says that these are four DISTINCT arrays: whatever evaluates a polynomial may hand the same array out for
+coefficient rows that coincide (reciprocal coupling `a[:,0,1] == a[:,1,0]`, equal diagonal polynomials, both
+couplings absent).  The store below holds one value per object (at one frequency); `Roles` says which object each
+name is bound to.  Today's code only READS the objects (`np.array([[aw, bw], [cw, dw]])`, `[[dw, -bw], [-cw, aw]]`
+allocate): `transferShared`.  `transferSharedInplace` is the discipline "flip the off-diagonal signs in place". -/
+
+/-- which object each of the names `aw, bw, cw, dw` is bound to (object `i` = the array evaluated from polynomial `i`) -/
+structure Roles where
+  ra : Nat
+  rb : Nat
+  rc : Nat
+  rd : Nat
+
+/-- the coefficient row polynomial `i` is evaluated from: `np.r_[1, a[:,0,0]]`, `np.r_[0, a[:,0,1]]`, `np.r_[0, a[:,1,0]]`,
+`np.r_[1, a[:,1,1]]` -/
+def polyOf (c : Coefs K) : Nat → List K
+  | 0 => one :: c.c00
+  | 1 => zero :: c.c01
+  | 2 => zero :: c.c10
+  | _ => one :: c.c11
+
+/-- the store at one frequency: object `i` holds polynomial `i` at `z` -/
+def storeOf (c : Coefs K) (z : K) : List K := (List.range 4).map fun i => polyEval (polyOf c i) z
+
+def obj (s : List K) (i : Nat) : K := s.getD i zero
+
+/-- today's `transfer_function_xy` on a store: reads only -/
+def transferShared (r : Roles) (s : List K) : M2 K :=
+  transferOfA ⟨obj s r.ra, obj s r.rb, obj s r.rc, obj s r.rd⟩
+
+/-- `np.negative(x, out=x)` on object `i` -/
+def negateObj (s : List K) (i : Nat) : List K := s.set i (neg (obj s i))
+
+/-- the in-place discipline: `detA = aw*dw - bw*cw; np.negative(bw, out=bw); np.negative(cw, out=cw);
+Hw = np.array([[dw, bw], [cw, aw]]) / detA` -/
+def transferSharedInplace (r : Roles) (s : List K) : M2 K :=
+  let detA := obj s r.ra *. obj s r.rd -. obj s r.rb *. obj s r.rc
+  let s2 := negateObj (negateObj s r.rb) r.rc
+  ⟨obj s2 r.rd /. detA, obj s2 r.rb /. detA, obj s2 r.rc /. detA, obj s2 r.ra /. detA⟩
+
+/-- a binding a coefficient-keyed memo can produce: every name is bound to an object evaluated from a coefficient row
+EQUAL to its own -/
+def Roles.Valid (r : Roles) (c : Coefs K) : Prop :=
+  (r.ra < 4 ∧ r.rb < 4 ∧ r.rc < 4 ∧ r.rd < 4) ∧
+  polyOf c r.ra = polyOf c 0 ∧ polyOf c r.rb = polyOf c 1 ∧ polyOf c r.rc = polyOf c 2 ∧ polyOf c r.rd = polyOf c 3
+
 /-! ### analyzer bookkeeping -/
 
 /-- `_dict2arr`: start from all-NaN (`none`) and store the per-pair result at `[i, j]` for each
@@ -186,11 +235,16 @@ structure AIn where
   nproc : Nat
   fs : Float
   pairs : List PairModel
+  /-- `false`: `fit_model` raises for one of the pairs of this input (order estimation does not converge) -/
+  ok : Bool := true
+
+/-- what `_model` gets on this input: the fitted pairs, or the `ValueError` -/
+def AIn.fitted (d : AIn) : Option (List PairModel) := if d.ok then some d.pairs else none
 
 inductive ARead where
   | xy | yx | sim | freqs | model
 
-/-- `S|<nproc>|<Fs>|<pair>;<pair>;…` = constructor / `set_input`; `Rxy Ryx Rsim Rf Rm` = reads -/
+/-- `S|<nproc>|<Fs>|<pair>;<pair>;…` (or `S|<nproc>|<Fs>|X`: fitting this input raises) = constructor / `set_input`; `Rxy Ryx Rsim Rf Rm` = reads -/
 def parseAOp? (s : String) : Option (GrangerObj.Op AIn × ARead) :=
   if s = "Rxy" then some (.readGC, .xy) else
   if s = "Ryx" then some (.readGC, .yx) else
@@ -201,8 +255,9 @@ def parseAOp? (s : String) : Option (GrangerObj.Op AIn × ARead) :=
   | ["S", np, fs, prs] => do
     let np ← np.toNat?
     let fs ← parseFloat? fs
+    if prs = "X" then pure (.setInput ⟨np, fs, [], false⟩, .model) else
     let ps ← (if prs = "-" then [] else prs.splitOn ";").mapM parsePair?
-    pure (.setInput ⟨np, fs, ps⟩, .model)
+    pure (.setInput ⟨np, fs, ps, true⟩, .model)
   | _ => none
 
 def analyzerAxis (nf : Nat) (d : AIn) : List Float :=
@@ -224,6 +279,13 @@ def handle (args : List String) : String :=
       let w := (List.range (nBins nf)).map fun k => CF.gridWI incl false k (nBins nf)
       "ok " ++ showFloatList w ++ " " ++ showM2 ((gridZ nf).map fun z => transferAt c z)
     | _, _, _ => "bad-op"
+  | ["tfs", nf, p, a, roles] => match nf.toNat?, p.toNat?, parseFloatList? a, roles.toList.map (fun ch => ch.toNat - 48) with
+    | some nf, some p, some a, [ra, rb, rc, rd] =>
+      -- the same call with the names bound as `roles` says (which of the four response arrays are one object)
+      let c := coefsOf p a
+      let w := (List.range (nBins nf)).map fun k => CF.gridWI incl false k (nBins nf)
+      "ok " ++ showFloatList w ++ " " ++ showM2 ((gridZ nf).map fun z => transferShared ⟨ra, rb, rc, rd⟩ (storeOf c z))
+    | _, _, _, _ => "bad-op"
   | ["sm", nf, p, a, cv] => match nf.toNat?, p.toNat?, parseFloatList? a, parseFloatList? cv with
     | some nf, some p, some a, some cv =>
       let c := coefsOf p a
@@ -253,7 +315,7 @@ def handle (args : List String) : String :=
     | _, _, _ => "bad-op"
   | "anaseq" :: nf :: toks => match nf.toNat?, toks.mapM parseAOp? with
     | some nf, some ((.setInput d, _) :: ops) =>
-      let outs := GrangerObj.run (fun d : AIn => some d.pairs) (fun d ps => anaArrays d.nproc nf ps) (analyzerAxis nf)
+      let outs := GrangerObj.run AIn.fitted (fun d ps => anaArrays d.nproc nf ps) (analyzerAxis nf)
         (ops.map (·.1)) (GrangerObj.construct d)
       "ok " ++ " ".intercalate ((outs.zip (ops.map (·.2))).flatMap showAOut)
     | _, _ => "bad-op"
